@@ -18,6 +18,7 @@ import (
 	"fmt"
 	"net/http"
 	"net/http/httptest"
+	"os"
 	"sort"
 	"strconv"
 	"sync"
@@ -360,7 +361,9 @@ func serveOnce(r *router.Router, key string, ctx context.Context) (mwObs, *bool)
 		req = req.WithContext(ctx)
 	}
 	r.ServeHTTP(rec, req)
-	h := rec.Header()
+	// the response as sent (snapshot taken at WriteHeader), not the recorder's live header map: a header
+	// set after the status line never reaches a client
+	h := rec.Result().Header
 	return mwObs{Status: rec.Code, Limit: h.Values("RateLimit-Limit"), Remaining: h.Values("RateLimit-Remaining"),
 		Reset: h.Values("RateLimit-Reset"), RetryAfter: h.Values("Retry-After")}, nil
 }
@@ -488,6 +491,8 @@ type winReq struct {
 	OffsetMs          int   `json:",omitempty"`
 	RetryOf           int   `json:",omitempty"` // 1+index of the 429 this request retries after its Retry-After
 	PauseCleanup      bool  `json:",omitempty"` // wait until the store's cleanup ticker has fired once
+	Noise             bool  `json:",omitempty"` // (default-store cases) the request goes to the second limiter and is not judged
+	NextSec           bool  `json:",omitempty"` // (default-store cases) first sleep into the next wall-clock second
 	now               int64 // t0 in ns (filled while running)
 }
 
@@ -499,6 +504,11 @@ type opT struct {
 type winCase struct {
 	Limit, W                   int
 	Headers, Enforce, Callback bool
+	// DefaultStore: two limiters configured WITHOUT a Store (each gets the package's default), same key,
+	// windows W and NoiseW, on two routes of one router; only the first limiter's requests are judged
+	DefaultStore bool `json:",omitempty"`
+	NoiseW       int  `json:",omitempty"`
+	NoiseLimit   int  `json:",omitempty"`
 	Reqs                       []winReq
 	Sched                      []opT
 }
@@ -549,7 +559,121 @@ func serialSched(n int) []opT {
 
 // run executes the case on the real code. It returns "" and the reason when the timing validation
 // fails (the case is then discarded and counted).
+var dfltSeq struct {
+	sync.Mutex
+	n int
+}
+
+// runDefault: limiters without an explicit Store. No Store wrapper is possible here, so the requests are
+// served strictly one after the other and only the long-window limiter (1 h: no carried-over weight
+// inside the hour) is judged; its case line is an ordinary serial W case.
+func (w *winCase) runDefault(id string) (line string, discard string, nontrivial bool, raced bool) {
+	dfltSeq.Lock()
+	dfltSeq.n++
+	key := fmt.Sprintf("dflt-%d-%d", os.Getpid(), dfltSeq.n) // the default store may be shared: keep cases apart
+	dfltSeq.Unlock()
+	window := time.Duration(w.W) * time.Second
+	Wns := int64(window)
+	ran := false
+	r := router.MustNew()
+	h := func(*router.Context) { ran = true }
+	r.GET("/a", ratelimit.WithSlidingWindow(ratelimit.SlidingWindow{Window: window, Limit: w.Limit}, commonOpts(w.Headers, w.Enforce, w.Callback)), h)
+	r.GET("/b", ratelimit.WithSlidingWindow(ratelimit.SlidingWindow{Window: time.Duration(w.NoiseW) * time.Second, Limit: w.NoiseLimit}, commonOpts(true, true, false)), h)
+	type rowT struct {
+		t0, t1 int64
+		m      mwObs
+	}
+	var rows []rowT
+	panicked := guard(func() {
+		for _, q := range w.Reqs {
+			if q.NextSec {
+				time.Sleep(time.Until(time.Now().Truncate(time.Second).Add(time.Second + 15*time.Millisecond)))
+			}
+			path := "/a"
+			if q.Noise {
+				path = "/b"
+			}
+			rec := httptest.NewRecorder()
+			req := httptest.NewRequest(http.MethodGet, path, nil)
+			req.Header.Set("X-Key", key)
+			ran = false
+			t0 := time.Now().UnixNano()
+			r.ServeHTTP(rec, req)
+			t1 := time.Now().UnixNano()
+			if q.Noise {
+				continue
+			}
+			hd := rec.Result().Header
+			rows = append(rows, rowT{t0, t1, mwObs{Status: rec.Code, Ran: ran, Limit: hd.Values("RateLimit-Limit"),
+				Remaining: hd.Values("RateLimit-Remaining"), Reset: hd.Values("RateLimit-Reset"), RetryAfter: hd.Values("Retry-After")}})
+		}
+	})
+	for _, row := range rows {
+		if row.t0/Wns != row.t1/Wns || row.t0/Wns != rows[0].t0/Wns {
+			return "", "W.discarded_window_changed_during_request", false, false
+		}
+		if row.t0/1e9 != row.t1/1e9 {
+			return "", "W.discarded_second_changed_during_request", false, false
+		}
+	}
+	l := hx.NewLine(id).Tok("W").Nat(w.Limit).Nat(w.W).Bool(w.Headers).Bool(w.Enforce).Bool(w.Callback).Nat(len(rows))
+	for _, row := range rows {
+		l.Str(key).I64(row.t0)
+	}
+	ser := serialSched(len(rows))
+	l.Nat(len(ser))
+	for _, op := range ser {
+		if op.G {
+			l.Tok("G")
+		} else {
+			l.Tok("I")
+		}
+		l.Nat(op.I)
+	}
+	l.Nat(0).Sep()
+	if panicked {
+		l.Tok("P")
+	} else {
+		l.Nat(len(rows))
+		for i, row := range rows {
+			l.Nat(i)
+			row.m.tokens(l)
+		}
+	}
+	return l.String(), "", true, false
+}
+
+func genWinDefault(r *hx.Rand) *winCase {
+	w := &winCase{Limit: r.Range(2, 4), W: 3600, Headers: true, Enforce: true, DefaultStore: true,
+		NoiseW: hx.Pick(r, []int{1, 1, 2}), NoiseLimit: 1000}
+	a := func() { w.Reqs = append(w.Reqs, winReq{Key: "a"}) }
+	b := func(next bool) { w.Reqs = append(w.Reqs, winReq{Key: "a", Noise: true, NextSec: next}) }
+	if r.Chance(1, 3) {
+		// the other limiter's traffic must not be charged to this one
+		for i, n := 0, r.Range(2, 6); i < n; i++ {
+			b(false)
+		}
+		a()
+		return w
+	}
+	for i, n := 0, w.Limit+r.Range(0, 1); i < n; i++ {
+		a()
+	}
+	// the short window elapses (twice) between requests to the other limiter, then this limiter again
+	b(false)
+	for i, n := 0, r.Range(2, 3)*w.NoiseW; i < n; i++ {
+		b(true)
+	}
+	for i, n := 0, r.Range(1, 3); i < n; i++ {
+		a()
+	}
+	return w
+}
+
 func (w *winCase) run(id string) (line string, discard string, nontrivial bool, raced bool) {
+	if w.DefaultStore {
+		return w.runDefault(id)
+	}
 	n := len(w.Reqs)
 	window := time.Duration(w.W) * time.Second
 	Wns := int64(window)
@@ -700,9 +824,9 @@ func (w *winCase) run(id string) (line string, discard string, nontrivial bool, 
 
 // shape is the case without its wall-clock stamps (distinctness is counted on it).
 func (w *winCase) shape() string {
-	s := fmt.Sprintf("W %d %d %v %v %v", w.Limit, w.W, w.Headers, w.Enforce, w.Callback)
+	s := fmt.Sprintf("W %d %d %v %v %v %v %d", w.Limit, w.W, w.Headers, w.Enforce, w.Callback, w.DefaultStore, w.NoiseW)
 	for _, q := range w.Reqs {
-		s += fmt.Sprintf(" %s/%v/%d", q.Key, q.SleepToNextWindow, q.RetryOf)
+		s += fmt.Sprintf(" %s/%v/%d/%v/%v", q.Key, q.SleepToNextWindow, q.RetryOf, q.Noise, q.NextSec)
 	}
 	return s + fmt.Sprint(w.Sched)
 }
@@ -897,7 +1021,11 @@ func main() {
 		var wg sync.WaitGroup
 		for i := range rolls {
 			rolls[i].id = fmt.Sprintf("c16-%d-roll-%d", a.Seed, i)
-			rolls[i].k = &caseT{Kind: "W", Win: genWin(r, true)}
+			if i%3 == 2 {
+				rolls[i].k = &caseT{Kind: "W", Win: genWinDefault(r)} // two limiters on the default store
+			} else {
+				rolls[i].k = &caseT{Kind: "W", Win: genWin(r, true)}
+			}
 		}
 		var slow []*caseT
 		if a.Tier == "thorough" && a.Seed%1000 == 0 && a.N >= 200 {
@@ -992,7 +1120,11 @@ func main() {
 			fmt.Fprintln(w, rr.line+hx.Comment(rr.k))
 			st.Case(rr.k.Win.shape(), rr.nt)
 			st.Count("W.cases")
-			st.Count("W.rolling_window_real_time")
+			if rr.k.Win.DefaultStore {
+				st.Count("W.two_limiters_on_the_default_store")
+			} else {
+				st.Count("W.rolling_window_real_time")
+			}
 		}
 		st.Emit(w)
 	case "replay":
